@@ -162,6 +162,22 @@ CHECKS['C13'] = dict(
          'name forms are bounded stand-ins on real archives, cross-checked with an independent decoder.',
     note='trusted: file model (append/seek/read), CRC32 uninterpreted, bytes as z3 strings, pyvc; write_dirfile / '
          'load_dirfile and _get_file_parts are bounded-only; Cython iter_nullstr twin unverified.')
+CHECKS['C16'] = dict(
+    category='other',
+    technique='contract-based deductive verification of the string-splitting kernel _write_longstring (pyvc loop-iteration '
+              'and tail lemmas over z3 strings with rfind/rstrip models, symbolic limit) + AST obligations on the FGD and '
+              'engine-database writers; bounded generator-based round trips incl. the whole bundled database',
+    text='Proved for texts of every length and every limit >= 2: each iteration of the _write_longstring loop appends one '
+         'quoted, non-empty section of at most LIMIT characters that is a prefix of the remaining text and keeps exactly '
+         'the rest (nothing lost or duplicated, progress), a cut at the limit never ends in an odd run of backslashes, and '
+         'after the loop at least one quoted section is written (the empty string becomes ""), joined by " +" NL indent. '
+         'AST obligations: every quoted text KVDef.export writes is escaped with the caller\'s syntax flag, choices values '
+         'are bare only when plain numbers, aliases are written as aliasof(), build_blocks drops no block before the '
+         'overflow entities are placed, the binary entity header counts what is written. Whole-definition round trips '
+         '(text x custom_syntax x label_spawnflags, binary format, the complete bundled database through text, lazy '
+         'lookups in pseudo-random orders) are a bounded stand-in - not counted as proved.',
+    note='trusted: escape pairs are two characters starting with a backslash (C02); rfind modelled as "some occurrence in '
+         'the window or -1". One known finding (resource types without a text keyword).')
 CHECKS['C18'] = dict(
     category='proof',
     technique='contract-based deductive verification: pyvc proof of RawFileSystem._resolve_path for every input string '
